@@ -434,7 +434,7 @@ func RunShard(prop, tier string, seed uint64, shard, shards int, plan []PlanItem
 		}
 		if lastFail != nil {
 			rp := &Replay{Property: lastFail.Prop, Check: prop, Scenario: sc.Name, Seed: seed, Shard: shard, Case: lastCase, Verdict: lastFail, Trace: fmt.Sprintf("%016x", lastTrace), Minimal: lastFail.Kind != "hang" && lastFail.Kind != "race"}
-			path := filepath.Join(outDir, fmt.Sprintf("%s-%s-%d-%d.json", lastFail.Prop, sc.Name, seed, shard))
+			path := filepath.Join(outDir, fmt.Sprintf("%s-by%s-%s-%d-%d.json", lastFail.Prop, prop, sc.Name, seed, shard))
 			b, _ := json.MarshalIndent(rp, "", " ")
 			if err := os.MkdirAll(outDir, 0o755); err != nil {
 				return st, err
